@@ -659,6 +659,58 @@ fn u_effect_full(k0: u8, k1: u8, cap: usize) {
     core::mem::forget(store);
     finish!(5, 11, 13);
 }
+/// the same, with a PRODUCER suspended inside a BlockOnFull `dispatch` on the full queue: it holds
+/// the `dispatch_tx` lock (StoreImpl::dispatch sends under that lock) and can only go on after the
+/// reducer has taken an item.  A reducer-side phase that waits for that lock closes a cycle
+/// (producer waits for the reducer, the reducer for the producer): reported by the Mutex::lock model.
+fn u_effect_full_producer_blocked(k0: u8, cap: usize) {
+    rt::reset_all();
+    script::reset();
+    crossbeam::hooks::set_native(None, Some(efull_block));
+    unsafe {
+        EFULL_SERVED = 0;
+    }
+    let store = mk_store(1, 0, cap, BackpressurePolicy::BlockOnFull, kani::any());
+    let mut i = 0;
+    while i < cap {
+        let r = crate::StoreImpl::dispatch(&store, kani::any());
+        core::mem::forget(r);
+        i += 1;
+    }
+    // the suspended producer: inside dispatch(), holding the sender lock, waiting for room
+    let held = match store.dispatch_tx.try_lock() {
+        Ok(g) => g,
+        Err(_) => panic!("VERIF-MODEL: sender lock not free"),
+    };
+    let s: St = kani::any();
+    let a: Act = kani::any();
+    let follow: Act = kani::any();
+    let mut effects: Vec<Effect<Act>> = Vec::new();
+    effects.push(make_effect(k0, 0, follow | 1).unwrap());
+    let g0 = crossbeam::channel::ghost(0);
+    let tasks0 = rusty_pool::ghost::tasks();
+    let disp: Arc<dyn Dispatcher<Act>> = Arc::new(store.clone());
+    in_reducer(|| store.do_effect(&a, &s, &mut effects, disp));
+    core::mem::forget(effects);
+    let g1 = crossbeam::channel::ghost(0);
+    chk!(13, g1.n_send_waited == g0.n_send_waited, "the effect phase returns although a producer is blocked in dispatch() on the full queue: the reducer context waits neither for the queue nor for the sender lock");
+    chk!(5, g1.len == cap && g1.max_len <= cap, "the blocked producer's slot is not taken by the effect phase");
+    chk!(11, rusty_pool::ghost::tasks() == tasks0 + 1, "the effect is submitted to the pool");
+    chk!(11, unsafe { EFF_RUN[0] } == 0, "no effect body runs inline in the reducer context");
+    core::mem::forget(held);
+    core::mem::forget(store);
+    finish!(5, 11, 13);
+}
+harness! {
+    #[kani::stub(crossbeam::hooks::block, efull_block)]
+    #[kani::unwind(6)]
+    fn u_effect_full_producer_blocked_action_cap1() { u_effect_full_producer_blocked(E_ACTION, 1); }
+}
+harness! {
+    #[kani::stub(crossbeam::hooks::block, efull_block)]
+    #[kani::unwind(6)]
+    fn u_effect_full_producer_blocked_thunk_cap2() { u_effect_full_producer_blocked(E_THUNK, 2); }
+}
 macro_rules! efull_harness {
     ($($name:ident = ($a:expr, $b:expr, $c:expr);)+) => { $(
         harness! {
